@@ -477,6 +477,21 @@ def run(ctx):
     calls = [i for i in ohk.calls() if ohk.nodes[i].get("op") == "()" and "prekill_hook_handler_" in ohk.text(ohk.nodes[i].get("recv", -1))]
     ctx.check(len(calls) == 1 and ohk.text(ohk.nodes[calls[0]]["args"][0]) == "cgroup_ctx", "context-forwards-to-handler", "provenance",
               ohk.loc(), "OomdContext::firePrekillHook forwards the victim to the engine's handler", "handler is not invoked with the victim")
+    # ... for every kill attempt: the only way out of it that does not pass the handler is the one taken when no handler is installed.
+    # A memo ("a hook was already started on this cgroup in this interval") that answers 'no hook' lets the second ruleset settling on
+    # the same victim kill it while the first one's hook is still running.
+    if len(calls) == 1:
+        fo = Flow(P, ohk, events={calls[0]: [("set", "handed")]}, cg=ctx.cg)
+        for r in returns(ohk):
+            if fo.must(r, "handed"):
+                continue
+            g = [(k, p) for k, p in fo.guards(r) if isinstance(k, str)]
+            unset = [(k, p) for k, p in g if "prekill_hook_handler_" in k and p is False]
+            other = [(k, p) for k, p in g if (k, p) not in unset]
+            ctx.check(bool(unset) and not other, "context-forwards-to-handler:every-attempt@%d" % ohk.nodes[r].get("line", 0), "must_precede, helpers followed", ohk.loc(r),
+                      "a return that bypasses the handler is taken only when no handler is installed",
+                      "OomdContext::firePrekillHook can answer '%s' without asking the engine's handler, under %s: a kill attempt on a cgroup "
+                      "with a matching hook then proceeds with no hook run for it" % (ret_text(ohk, r), other or "no condition"))
     upd = ctx.fn1("Oomd::Oomd::updateContext")
     hl = [l for l in P.lambdas_in(upd) if l.calls("Engine::firePrekillHook")]
     ctx.check(len(hl) == 1 and bool(upd.calls("setPrekillHooksHandler")), "handler-is-engine-firePrekillHook", "provenance", upd.loc(),
